@@ -670,7 +670,11 @@ impl World {
                 let tree = if src.is_empty() {
                     sys::fsmount_tmpfs()
                 } else {
-                    sys::open_tree(libc::AT_FDCWD, &abs(src), 1 /*OPEN_TREE_CLONE*/ | libc::O_CLOEXEC as u32)
+                    // "nofollow:<path>": the source is the symlink itself (AT_SYMLINK_NOFOLLOW)
+                    match src.strip_prefix("nofollow:") {
+                        Some(s) => sys::open_tree(libc::AT_FDCWD, &abs(s), 1 | 0x100 | libc::O_CLOEXEC as u32),
+                        None => sys::open_tree(libc::AT_FDCWD, &abs(src), 1 /*OPEN_TREE_CLONE*/ | libc::O_CLOEXEC as u32),
+                    }
                 };
                 let tree = match tree {
                     Ok(t) => t,
